@@ -149,8 +149,32 @@ def handleFtyp (kv : KV) : String :=
     else s!"OK {id} tags=ftyp,rejected"
   | _, _ => "ERR ? missing-field"
 
+/-- kind=value: a typed payload through the derived parser itself.  A value obtained from a payload serialises to
+    exactly `encoded_len` bytes and to that payload (all of it: the derived parser owns the whole payload and refuses
+    what it does not consume); the verdict is compared with the model's `parseCo` / `parseFtyp`. -/
+def handleValue (kv : KV) : String :=
+  match kv.get? "ty", kv.hex? "bytes", kv.get? "res" with
+  | some ty, some bytes, some res =>
+    let id := s!"value:{ty}:{(toHex bytes).take 60}:{bytes.length}"
+    let m : String :=
+      if ty == "ftyp" then (match pureErr (parseFtyp bytes) with | none => "ok" | some e => s!"err:{e}")
+      else (match pureErr (parseCo (if ty == "co64" then 8 else 4) bytes) with | none => "ok" | some e => s!"err:{e}")
+    if res == "panic" then s!"SPEC {id} which=no-panic sig=value:panic"
+    else if res.startsWith "ok" then
+      match kv.hex? "put", kv.nat? "elen", kv.nat? "rest" with
+      | some put, some elen, some rest =>
+        if elen != put.length then s!"SPEC {id} which=encoded-len-equals-bytes-written sig=value:{ty}:len impl-elen={elen} written={put.length}"
+        else if put != bytes then s!"SPEC {id} which=serialize-reproduces-the-parsed-payload sig=value:{ty}:roundtrip put={toHex put} left-in-buffer={rest}"
+        else if m != "ok" then s!"DIFF {id} model={m} impl=ok"
+        else s!"OK {id} tags=value,{ty},ok"
+      | _, _, _ => s!"ERR {id} missing-field"
+    else if m != res then s!"DIFF {id} model={m} impl={res}"
+    else s!"OK {id} tags=value,{ty},rejected"
+  | _, _, _ => "ERR ? missing-field"
+
 def handle (kv : KV) : String :=
   match kv.get? "kind" with
+  | some "value" => handleValue kv
   | some "hdr" => handleHdr kv
   | some "ctor" => handleCtor kv
   | some "tree" => handleTree kv
